@@ -238,9 +238,36 @@ fn make_final(sd: &refcodec::tables::StreamDef, pools: &Pools, rng: &mut Rng, va
     Reply { variant: variant.to_string(), item_debug: item_debug(variant, key, &bytes, &dbg), bytes, answer: ACK.to_vec() }
 }
 
+/// A long upload: one 40000-byte file fetched again and again in maximal blocks until far more than 2^32 / 100 bytes
+/// have been sent in the one exchange (whatever is counted across requests must not run over).
+fn volume_upload(r: &mut Report, rng: &mut Rng, shard: usize, schema: &refcodec::layout::Schema, pools: &Pools, n_requests: usize) {
+    let mut files: BTreeMap<u8, Vec<u8>> = BTreeMap::new();
+    files.insert(0x10, rng.bytes(40_000));
+    let dir = PayloadDir::create(&format!("c11-vol-{shard}"), &files, &[]);
+    let sizes: BTreeMap<u8, u32> = files.iter().map(|(k, v)| (*k, v.len() as u32)).collect();
+    let block = 32768u32;
+    let params = WriteFileParams { dir: dir.dir.clone(), password: 123456, block };
+    let announce = WfCodec::announce(params.password as u128, &sizes);
+    let replies: Vec<Reply> = (0..n_requests)
+        .map(|k| {
+            let off = if k % 2 == 0 { 0u32 } else { 7232 };
+            let b = WfCodec::request(Some(0x10), Some(off), true, true);
+            Reply { variant: "RequestForData".into(), item_debug: item_debug("RequestForData", "feig::packets::RequestForData", &b, "?"), bytes: b, answer: WfCodec::data_block(0x10, off, slice_of(&files[&0x10], off, block)) }
+        })
+        .collect();
+    let sd = refcodec::tables::STREAMS.iter().find(|s| s.name == "feig::WriteFile").unwrap();
+    let mut all = replies;
+    all.push(make_final(sd, pools, rng, "CompletionData"));
+    let ex = Exchange { stream: "feig::WriteFile", cmd_bytes: announce.clone(), cmd_check: CmdCheck::WriteFile { password: 123456, files: sizes.clone(), len: announce.len() }, ack: ACK.to_vec(), final_at: Some(all.len() - 1), replies: all, junk: vec![], chunking: Chunking::Whole, pend_between: false, write_chunk: None, fault: None, wf: Some(&params) };
+    r.case(fnv(b"volume") ^ n_requests as u64, true);
+    r.count("volume_uploads", 1);
+    r.count("bytes_requested", n_requests as u64 * 32768);
+    ex.check_c05(r, schema, "C11");
+}
+
 pub fn run(ctx: &Ctx) -> i32 {
     let mut report = ctx.report("C11", "exploration");
-    report.rule = "uploads: a payload directory created by the harness (random subset of the 21 recognised paths, sizes {0, 1, block-1, block, block+1, 2*block, 65535, 65536, 200 KiB, random}, random content, plus unrelated files and sub-directories) x block size {1, 2, 127, 128, 253..257, 1024, 32767, 32768, random} x a request script {sequential full download, any order/repeated/overlapping, round robin over all files (up to all 21) for three rounds, offsets at/after end of file and u32::MAX, short, backwards} ending in completion, abort or an invalid request {unknown id, recognised-but-absent id, missing id, missing offset, missing file container, missing TLV container}. Oracle over the scripted terminal's event log: the announcement decodes (reference codec) to exactly the set {(id, true size)}; every data request is answered by exactly the reference encoding of {id, offset, file[offset..min(offset+block,size)]} (empty = absent payload) before the next read; an invalid request yields one error, no data, end. Non-trivial = upload with at least one data request; distinct by hash of (announcement, block, requests, ending).".into();
+    report.rule = "uploads: a payload directory created by the harness (random subset of the 21 recognised paths, sizes {0, 1, block-1, block, block+1, 2*block, 65535, 65536, 200 KiB, random}, random content, plus unrelated files and sub-directories) x block size {1, 2, 127, 128, 253..257, 1024, 32767, 32768, random} x a request script {sequential full download, any order/repeated/overlapping, round robin over all files (up to all 21) for three rounds, offsets at/after end of file and u32::MAX, short, backwards} ending in completion, abort or an invalid request; plus one long upload (one file fetched 1400 / 14000 times in 32 KiB blocks: 46 / 460 MB in one exchange) {unknown id, recognised-but-absent id, missing id, missing offset, missing file container, missing TLV container}. Oracle over the scripted terminal's event log: the announcement decodes (reference codec) to exactly the set {(id, true size)}; every data request is answered by exactly the reference encoding of {id, offset, file[offset..min(offset+block,size)]} (empty = absent payload) before the next read; an invalid request yields one error, no data, end. Non-trivial = upload with at least one data request; distinct by hash of (announcement, block, requests, ending).".into();
     report.exhaustive = Some(false);
     report.assumptions = vec!["files and directories are created under /verif/.build/<work>/scratch and removed afterwards".into(), "files > 4 GiB (u32 truncation) are not exercised".into()];
     let schema = refcodec::zvt_schema();
@@ -250,6 +277,11 @@ pub fn run(ctx: &Ctx) -> i32 {
     let seed = ctx.seed;
     let quick = ctx.quick();
     sharded(&mut report, threads, |shard, r| {
+        if shard == 0 {
+            // ~46 MB in one exchange (quick), ~460 MB (thorough)
+            let mut vrng = Rng::derive(seed, 0xC11_F00);
+            volume_upload(r, &mut vrng, shard, &schema, &pools, if quick { 1400 } else { 14_000 });
+        }
         let mut rng = Rng::derive(seed, 0xC11 + shard as u64);
         for _ in 0..n / threads {
             one_upload(r, &mut rng, shard, &schema, &pools, quick);
